@@ -30,6 +30,7 @@ from contracts.C15 import CMPI_PRED, fp_same
 from contracts.common import A, AX, C, bits, bitwise_axioms, division_axioms, forall, in_signed, in_signless, sgn, truncdiv
 from pyvc.arith import PYAND, PYOR, PYXOR, floordiv
 from pyvc.spec import Builtin, Inline, Spec
+from pyvc.values import Unsupported
 from pyvc.values import F64, Clause, VBool, VFloat, VGlobal, VInt, VRef, VTuple, Vocab, z_float, z_int
 
 PROP = "C14"
@@ -766,6 +767,108 @@ class CmpiEqualOperands(Spec):
         return []
 
 
+class SelectFoldCmpf(Spec):
+    """
+    SelectFoldCmpfPattern: `select (cmpf p, a, b), a, b` -> maximumf / minimumf.  MLIR fast-math semantics: under `nnan` a NaN operand makes the result
+    poison (excluded), under `nsz` the sign of a zero result is insignificant.  The flags are two SYMBOLIC booleans: the rewrite must be justified by
+    the flags the cmpf actually carries, for all binary64 operands.
+    """
+
+    prop, file, qualname = PROP, CP, "SelectFoldCmpfPattern.match_and_rewrite"
+
+    def __init__(self):
+        from pyvc.engine import Res
+
+        spec = self
+
+        def b_target(kind):
+            def b(ex, st, args, kw):
+                from contracts.C15 import ieee_maximum, ieee_minimum
+
+                r = st.fresh_int(kind + "_op")
+                a_, b_ = spec.fval[z3.simplify(args[0].z).as_long()], spec.fval[z3.simplify(args[1].z).as_long()]
+                spec.built[r.get_id()] = (ieee_maximum if kind == "max" else ieee_minimum)(a_, b_)
+                return [Res("val", VRef(r, "Operation"), st)]
+            return b
+
+        def b_replace(ex, st, args, kw):
+            from contracts.C15 import cmpf_pred
+
+            new = args[1]
+            rv = spec.built.get(new.z.get_id())
+            if rv is None:
+                raise Unsupported("replacement is not an op this contract knows the denotation of")
+            a_, b_ = spec.a, spec.b
+            before = z3.If(cmpf_pred(spec.pred, a_, b_), a_, b_)
+            poison = z3.And(spec.nnan, z3.Or(z3.fpIsNaN(a_), z3.fpIsNaN(b_)))
+            same = z3.Or(fp_same(rv, before), z3.And(spec.nsz, z3.fpIsZero(rv), z3.fpIsZero(before)))
+            ex.oblige(st, "call-pre", "replace:the-replacement-denotes-the-value-of-the-select-under-the-flags-the-cmpf-carries", z3.Implies(z3.Not(poison), same), "property")
+            st.ghost["replaced"] = z3.BoolVal(True)
+            return [Res("val", None, st)]
+
+        b_replace.ghost_modifies = ["replaced"]
+        self.calls = {"arith.MaximumfOp": Builtin(b_target("max"), "arith.maximumf a, b: IEEE-754 maximum (NaN-propagating, +0 > -0)"),
+                      "arith.MinimumfOp": Builtin(b_target("min"), "arith.minimumf a, b: IEEE-754 minimum"),
+                      "target": Builtin(lambda ex, st, a, k: (b_target("max") if st.env["target"].text.endswith("MaximumfOp") else b_target("min"))(ex, st, a, k), "the op class chosen by the match"),
+                      "rewriter.replace": Builtin(b_replace, "PatternRewriter.replace: the replacement must denote the same value (C11 covers the rewriter itself)")}
+
+    @property
+    def globals(self):
+        spec = self
+
+        def getattr_(ex, st, base, attr):
+            if base.cls == "SelectOp" and attr == "cond":
+                return VRef(z3.IntVal(21), "OpResult")
+            if base.cls == "OpResult" and attr == "op":
+                return VRef(z3.IntVal(22), "CmpfOp")
+            if base.cls in ("SelectOp", "CmpfOp") and attr in ("lhs", "rhs"):
+                same = spec.inst["same_operands"]
+                z = {"lhs": 31, "rhs": 32}[attr] if (same or base.cls == "SelectOp") else {"lhs": 32, "rhs": 31}[attr]
+                return VRef(z3.IntVal(z), "SSAValue")
+            if base.cls == "CmpfOp" and attr == "fastmath":
+                return VRef(z3.IntVal(23), "FastMathFlagsAttr")
+            if base.cls == "FastMathFlagsAttr" and attr == "data":
+                return VRef(z3.IntVal(24), "FlagSet")
+            return None
+
+        def contains(ex, st, container, item):
+            if isinstance(container, VRef) and container.cls == "FlagSet" and isinstance(item, VGlobal):
+                if item.text.endswith("NO_NANS"):
+                    return VBool(spec.nnan)
+                if item.text.endswith("NO_SIGNED_ZEROS"):
+                    return VBool(spec.nsz)
+            return None
+
+        def isinst(ex, st, v, cls):
+            return True  # the instance is a select whose condition is the result of a cmpf
+
+        return {"__getattr__": getattr_, "__contains__": contains, "__isinstance__": isinst, "arith": VGlobal("arith"), "OpResult": VGlobal("OpResult")}
+
+    def setup(self, st, inst):
+        self.inst = inst
+        self.pred = inst["pred"]
+        self.built = {}
+        self.a = st.declare_input("a", z3.FP("a", F64))
+        self.b = st.declare_input("b", z3.FP("b", F64))
+        self.nnan = st.declare_input("nnan", z3.Bool("nnan"))
+        self.nsz = st.declare_input("nsz", z3.Bool("nsz"))
+        self.fval = {31: self.a, 32: self.b}
+        st.ghost["replaced"] = z3.BoolVal(False)
+        return {"self": VRef(z3.IntVal(1)), "op": VRef(z3.IntVal(2), "SelectOp"), "rewriter": VRef(z3.IntVal(3), "PatternRewriter")}
+
+    def bind(self, st, a, inst):
+        return {"cmpf.predicate.value.data": inst["pred"]}
+
+    def pre(self, st, a):
+        return []
+
+    def post(self, old, st, a, res):
+        return [A("pattern-returns", z3.BoolVal(True))]
+
+    def replay(self, inst, m):
+        return N14.check_select_cmpf(inst["pred"], m.get("a"), m.get("b"), m.get("nnan"), m.get("nsz"))
+
+
 # ------------------------------------------------------------------ the CSE key
 CSE = "xdsl/transforms/common_subexpression_elimination.py"
 K_NAME, K_ATTRS, K_PROPS, K_OPERANDS, K_RTYPES = (z3.Function(n, I, I) for n in ("key_name", "key_attributes", "key_properties", "key_operands", "key_result_types"))
@@ -869,6 +972,7 @@ def make_specs(tier):
         for pat in ("SignlessIntegerBinaryOperationZeroOrUnitRight", "SignlessIntegerBinaryOperationConstantProp"):
             add(IntBinaryPatterns(pat, cls), [{"cls": cls.__name__, "w": w} for w in ((1, 8, 64) if tier == "quick" else ws)])
     add(CseKey(), [{}])
+    add(SelectFoldCmpf(), [{"pred": p, "same_operands": True} for p in range(16)] + [{"pred": 2, "same_operands": False}])
     add(FoldConst(), [{"op": o} for o in ("AddfOp", "SubfOp", "MulfOp", "DivfOp", "MaximumfOp")])
     add(CmpiEqualOperands(), [{"w": w, "pred": p, "same": True} for w in (1, 8, 64) for p in range(10)] + [{"w": 8, "pred": 2, "same": False}])
     return specs
